@@ -50,6 +50,17 @@ def make_source(kind: str, data: bytes, schedule, default, tmpdir: str | None = 
     if kind == "seekable-buffered":
         return io.BufferedReader(faultio.ScheduleRaw(data, schedule, default, seekable=True),
                                  buffer_size=16)
+    if kind.startswith("preamble-"):
+        # a container file: the Jelly stream starts after a preamble the caller has consumed,
+        # so the reader's buffer holds only 16-k bytes of it when the parser starts
+        k = int(kind.rsplit("-", 1)[1])
+        r = io.BufferedReader(faultio.ScheduleRaw(b"P" * k + data, (), None, seekable=True),
+                              buffer_size=16)
+        assert r.read(k) == b"P" * k
+        return r
+    if kind == "tiny-buffer":
+        return io.BufferedReader(faultio.ScheduleRaw(data, (), None, seekable=True),
+                                 buffer_size=2)
     if kind.startswith("gzip-members"):
         k = int(kind.rsplit("-", 1)[1])  # first gzip member holds k bytes
         blob = gzip.compress(data[:k]) + gzip.compress(data[k:])
@@ -143,7 +154,9 @@ def shard(job) -> dict:
             continue
         for mode in ("flat", "grouped"):
             for source in ("bytesio", "file", "gzip", "gzip-members-1", "gzip-members-2",
-                           "gzip-members-3", "gzip-members-7"):
+                           "gzip-members-3", "gzip-members-7", "tiny-buffer", "preamble-1",
+                           "preamble-13", "preamble-14", "preamble-15", "preamble-16",
+                           "preamble-17", "preamble-31"):
                 case = {"corpus": size, "stream": name, "api": api, "mode": mode,
                         "source": source}
                 acc.evals += 1
